@@ -25,24 +25,39 @@ def run_pipe(res, tier, prefix, configs, schedules):
     st = common.merge_stats(sh.stats)
     if prefix in ('C06', 'C07'):
         # systematic leg: small file sessions, EVERY schedule with at most `bound` preemptions (stateless depth-first exploration)
-        bound, ncfg, stride, budget = (1, 32, 7, 200000) if tier == 'quick' else (2, 192, 1, 150000)
-        sh2 = common.Sharded(exe, lambda a, b: ['pipedfs', common.seed(), a * stride, a * stride + 1, bound, budget], ncfg, env=env, chunk=1,
-                             tag='pipedfs', timeout=1500, case_timeout=1450)
-        sh2.keep_prefix = '@dfs '
-        sh2.run()
+        # quick: bound 1 over 32 configurations; thorough: bound 1 over all 192 and bound 2 over 24 of them (budgeted: truncation is reported)
+        legs = [(1, 32, 7, 200000)] if tier == 'quick' else [(1, 192, 1, 200000), (2, 24, 8, 60000)]
+        kept = []
+        viols2 = []
+        crashed = False
+        for bound, ncfg, stride, budget in legs:
+            sh2 = common.Sharded(exe, lambda a, b, stride=stride, bound=bound, budget=budget: ['pipedfs', common.seed(), a * stride, a * stride + 1, bound, budget],
+                                 ncfg, env=env, chunk=1, tag='pipedfs%d' % bound, timeout=1500, case_timeout=1450)
+            sh2.keep_prefix = '@dfs '
+            sh2.run()
+            viols2 += sh2.viols
+            sh2_all = sh2
+            kept.append((bound, ncfg, list(sh2.kept)))
+            crashed = crashed or bool(sh2.crashes or sh2.hangs)
+            sh2.viols = []
+            common.absorb(res, sh2)
+        sh2 = sh2_all
+        sh2.viols = viols2
+        sh2.crashes, sh2.hangs, sh2.problems = [], [], []
         keep2 = [(k, t, c) for (k, t, c) in sh2.viols if k.startswith(prefix + ':')]
         if prefix == 'C07':
             keep2 += [(prefix + ':session-does-not-complete:' + k[4:], t, c) for (k, t, c) in sh2.viols if k.startswith('C06:deadlock') or k.startswith('C06:livelock')]
         sh2.viols = [(k[len(prefix) + 1:], t, c) for (k, t, c) in keep2]
         common.absorb(res, sh2)
-        execs = sum(int(l.split()[2]) for l in sh2.kept)
-        trunc = sum(int(l.split()[3]) for l in sh2.kept)
-        res.extra_systematic = dict(preemption_bound=bound, configurations=len(sh2.kept), executions=execs, truncated_configurations=trunc,
-                                    max_decisions_per_execution=max([int(l.split()[4]) for l in sh2.kept] or [0]),
-                                    complete_up_to_bound=(len(sh2.kept) == ncfg and trunc == 0),
-                                    sample_configurations=[' '.join(l.split()[5:]) for l in sh2.kept[:4]])
-        if len(sh2.kept) < ncfg and not (sh2.crashes or sh2.hangs or keep2):
-            res.inconclusive.append('systematic leg: only %d of %d configurations explored' % (len(sh2.kept), ncfg))
+        execs = sum(int(l.split()[2]) for _, _, ks in kept for l in ks)
+        res.extra_systematic = [dict(preemption_bound=b, configurations=len(ks), executions=sum(int(l.split()[2]) for l in ks),
+                                     truncated_configurations=sum(int(l.split()[3]) for l in ks),
+                                     max_decisions_per_execution=max([int(l.split()[4]) for l in ks] or [0]),
+                                     complete_up_to_bound=(len(ks) == n and not sum(int(l.split()[3]) for l in ks)),
+                                     sample_configurations=[' '.join(l.split()[5:]) for l in ks[:3]]) for b, n, ks in kept]
+        for b, n, ks in kept:
+            if len(ks) < n and not (crashed or keep2):
+                res.inconclusive.append('systematic leg (bound %d): only %d of %d configurations explored' % (b, len(ks), n))
         st['sessions'] = st.get('sessions', 0) + execs
     res.evaluations = st.get('sessions', 0)
     res.distinct = st.get('distinct_signatures', 0)
